@@ -311,8 +311,9 @@ def range_job(rec, seed, name, ns, seeded):
       continue
     seen.add(key)
     rec.replayed()
-    if kind in ('range', 'range_bytes') and not bad:
-      # abstraction / entropy-driven: confirm by a concrete search
+    if kind in ('range', 'range_bytes', 'raises') and not bad:
+      # abstraction / entropy-driven, or a code path the library models do
+      # not follow: confirm by a concrete search over seeds
       bad, tags, detail = replay_search(name, n, seeded)
     rec.violation('rng.%s.RandomBits' % cls, kind,
                   '%s: %s' % (name, detail), dict(generator=name, n=n, seed=s),
@@ -405,7 +406,9 @@ def replay_history(name, na, nb, seed):
   import importlib  # pylint: disable=g-import-not-at-top
   rng = importlib.reload(_rng())
   na, nb, seed = int(na), int(nb), int(seed)
-  gen = _instance(rng, name)
+  # the real generator of the registry (the numpy-backed ones are models only
+  # inside the symbolic run)
+  gen = rng.RNGS[name] if name in rng.RNGS else _instance(rng, name)
   try:
     fresh = gen.RandomBits(nb, seed=seed)
     gen.RandomBits(na, seed=seed)
